@@ -121,7 +121,6 @@ Und kann so benutzt werden:
 	"das x der Mitte laut b"
 `
 
-
 type invisibleName struct {
 	Kind string // private-func | private-var | unlisted | not-imported
 	Use  string // a root statement using the name
